@@ -1,9 +1,9 @@
-use super::{Namespace, TryFromNode, doc::RustDocument};
+use super::{Namespace, TryFromNode, doc::RustDocument, structures::xml_name_to_rust_name};
 use crate::{
     error::{WriterError, WriterResult},
     reader::WriteXml,
 };
-use inflector::cases::{pascalcase::to_pascal_case, snakecase::to_snake_case};
+use inflector::cases::snakecase::to_snake_case;
 use roxmltree::Node;
 use std::{
     fmt::{Display, Formatter},
@@ -98,7 +98,7 @@ impl<'n> TryFromNode<'n> for Field {
 
             let xml_name = ref_node.xml_name().ok_or(WriterError::InvalidReference)?;
             let rust_type = RustFieldType::Other(OtherRustType {
-                name: to_pascal_case(xml_name),
+                name: xml_name_to_rust_name(xml_name),
                 module,
             });
 
@@ -275,7 +275,7 @@ pub fn as_rust_type(node_type: &str, doc: &RustDocument) -> RustFieldType {
         "short" => RustFieldType::I16,
         "boolean" => RustFieldType::Bool,
         v => RustFieldType::Other(OtherRustType {
-            name: to_pascal_case(v),
+            name: xml_name_to_rust_name(v),
             module: namespace.and_then(|ns| {
                 doc.find_module_name_from_namespace_reference(ns)
                     .map(ToString::to_string)
@@ -289,36 +289,61 @@ pub fn as_field_name(xml_name: &str) -> String {
     rename_keywords(&field_name).to_string()
 }
 
-/// renamed the Rust keyword and quote the field name
+/// Rename a field or function name that is a Rust keyword (strict or reserved, edition 2024). Keywords are written
+/// as raw identifiers; `self`, `super` and `crate` can not be raw identifiers and get a trailing underscore.
 pub fn rename_keywords(field_name: &str) -> &str {
     match field_name {
-        "type" => "r#type",
+        "abstract" => "r#abstract",
         "as" => "r#as",
-        "where" => "r#where",
+        "async" => "r#async",
+        "await" => "r#await",
+        "become" => "r#become",
+        "box" => "r#box",
         "break" => "r#break",
-        "override" => "r#override",
+        "const" => "r#const",
         "continue" => "r#continue",
-        "crate" => "r#crate",
+        "do" => "r#do",
+        "dyn" => "r#dyn",
         "else" => "r#else",
         "enum" => "r#enum",
         "extern" => "r#extern",
         "false" => "r#false",
-        "true" => "r#true",
+        "final" => "r#final",
         "fn" => "r#fn",
         "for" => "r#for",
+        "gen" => "r#gen",
         "if" => "r#if",
         "impl" => "r#impl",
         "in" => "r#in",
         "let" => "r#let",
         "loop" => "r#loop",
+        "macro" => "r#macro",
         "match" => "r#match",
         "mod" => "r#mod",
         "move" => "r#move",
         "mut" => "r#mut",
+        "override" => "r#override",
+        "priv" => "r#priv",
         "pub" => "r#pub",
         "ref" => "r#ref",
         "return" => "r#return",
-        "self" => "r#self",
+        "static" => "r#static",
+        "struct" => "r#struct",
+        "trait" => "r#trait",
+        "true" => "r#true",
+        "try" => "r#try",
+        "type" => "r#type",
+        "typeof" => "r#typeof",
+        "unsafe" => "r#unsafe",
+        "unsized" => "r#unsized",
+        "use" => "r#use",
+        "virtual" => "r#virtual",
+        "where" => "r#where",
+        "while" => "r#while",
+        "yield" => "r#yield",
+        "self" => "self_",
+        "super" => "super_",
+        "crate" => "crate_",
         _ => field_name,
     }
 }
